@@ -321,6 +321,9 @@ func drive(chk *Check, tier string, replayFile string) int {
 	for k, s := range merged.Sets {
 		ev.Coverage["distinct_"+k] = len(s)
 	}
+	if merged.Samples == nil {
+		merged.Samples = []interface{}{} // a list even when a check recorded none (the schema asks for a list)
+	}
 	ev.Coverage["samples"] = merged.Samples
 	ev.Coverage["exhaustive"] = !merged.Incomplete
 	ev.Coverage["shards"] = nsh
